@@ -144,6 +144,8 @@ const (
 	tPlain
 )
 
+var shrunk = map[string]bool{}
+
 var (
 	initOnce sync.Once
 	reg      *registry
@@ -744,10 +746,14 @@ func (cs *caseState) partB(r *rng.R, b []byte, classes []string, typed bool, A f
 			key := vkey("decode-panic", tg.name, o.pfunc, panicClass(o.pmsg))
 			if !cs.seen[key] {
 				pf, pc := o.pfunc, panicClass(o.pmsg)
-				min := shrink(b, 150, func(x []byte) bool {
-					oo := guard(func() (reflect.Value, int64, error) { return e.call(tg.typ, x) })
-					return oo.panicked && oo.pfunc == pf && panicClass(oo.pmsg) == pc
-				})
+				min := b
+				if !shrunk[key] { // minimise once per process and key (witness quality only, never the verdict)
+					shrunk[key] = true
+					min = shrink(b, 150, func(x []byte) bool {
+						oo := guard(func() (reflect.Value, int64, error) { return e.call(tg.typ, x) })
+						return oo.panicked && oo.pfunc == pf && panicClass(oo.pmsg) == pc
+					})
+				}
 				cs.violation(key, fmt.Sprintf("%s(%d hostile bytes -> %s) panicked: %s", e.name, len(b), tg.name, o.pmsg),
 					map[string]interface{}{"target": tg.name, "entry": e.name, "classes": classes, "input": hexw(b), "minimised_input": hexw(min), "panic": o.pmsg, "stack": o.pstack})
 			}
@@ -759,10 +765,14 @@ func (cs *caseState) partB(r *rng.R, b []byte, classes []string, typed bool, A f
 			site := allocSite(func() { guard(func() (reflect.Value, int64, error) { return e.call(tg.typ, b) }) })
 			key := vkey("alloc-unbounded", tg.name, site)
 			if !cs.seen[key] {
-				min := shrink(b, 24, func(x []byte) bool {
-					oo := measured(func() (reflect.Value, int64, error) { return e.call(tg.typ, x) })
-					return !oo.panicked && float64(oo.alloc) > A*float64(len(x))+allocSlack+2*float64(e.limit)
-				})
+				min := b
+				if !shrunk[key] {
+					shrunk[key] = true
+					min = shrink(b, 24, func(x []byte) bool {
+						oo := measured(func() (reflect.Value, int64, error) { return e.call(tg.typ, x) })
+						return !oo.panicked && float64(oo.alloc) > A*float64(len(x))+allocSlack+2*float64(e.limit)
+					})
+				}
 				cs.violation(key, fmt.Sprintf("%s allocated %d bytes while decoding %d input bytes into %s (bound %.0f = %.0f*len+16MiB+2*limit)", e.name, o.alloc, len(b), tg.name, bound, A),
 					map[string]interface{}{"target": tg.name, "entry": e.name, "classes": classes, "input": hexw(b), "minimised_input": hexw(min), "allocated": o.alloc, "site": site, "decode_error": fmt.Sprint(o.err)})
 			}
